@@ -48,6 +48,7 @@ type C08Case struct {
 	Quick    bool   `json:"quick,omitempty"`    // observe 1.5 s after feeding the providers: each flow has ticked exactly once, nothing has viewed the proposals yet
 	Second   bool   `json:"second,omitempty"`   // the log proposals surfaced by the previous outcome are proposed again afterwards; a SECOND observation is the one judged
 	AccLower bool   `json:"acc_lower,omitempty"` // in-flight reports for proposals carry a LOWER check block than the stored proposal
+	Aged     int    `json:"aged,omitempty"`     // this many log proposals and conditional upkeeps were proposed more than 24 h before everything else (expired, still stored)
 	WarmSeq  uint64 `json:"warm_seq,omitempty"` // if non-zero: Observation is first called with this sequence number (exercises the sorter memo)
 	// observed
 	Perf   []int  `json:"perf,omitempty"`
@@ -107,6 +108,7 @@ func (r *recorder) fn(_ context.Context, ps ...common.UpkeepPayload) ([]common.C
 func runC08(t *testing.T, c *C08Case) {
 	rng := NewRng(c.Order)
 	cd := ocr2plustypes.ConfigDigest{byte(c.Digest), 9}
+	var pushes []func()
 	mk := func(order []int) (*Node, *recorder) {
 		nd := NewNode(t, NodeOpts{N: 4, F: 1, Digest: cd})
 		rec := &recorder{checked: map[string]common.UpkeepPayload{}, pd: map[string][]byte{}}
@@ -117,7 +119,7 @@ func runC08(t *testing.T, c *C08Case) {
 			logs = append(logs, p)
 		}
 		nd.Runnable.SetFn(rec.fn)
-		nd.Logs.Push(logs...)
+		pushes = append(pushes, func() { nd.Logs.Push(logs...) })
 		return nd, rec
 	}
 	orderA := make([]int, c.Staged)
@@ -144,14 +146,33 @@ func runC08(t *testing.T, c *C08Case) {
 	for i := 0; i < c.LogProps; i++ {
 		recov = append(recov, logPayload(100000+i, 900))
 	}
-	a.Recov.Push(recov...)
 	var conds []common.UpkeepPayload
 	for i := 0; i < c.CondUpk; i++ {
 		id := UpkeepID(0, 500+i)
 		tr := common.NewTrigger(990, Hash32("cb", 990))
 		conds = append(conds, common.UpkeepPayload{UpkeepID: id, Trigger: tr, WorkID: WG(id, tr)})
 	}
-	a.Getter.Set(conds)
+	agedL, agedC := 0, 0
+	if c.Aged > 0 {
+		// the first proposals of each kind are made now and left alone for more than the 24 h proposal expiry:
+		// they are still in the metadata store (nothing has viewed them since) when the live ones arrive, and
+		// their keys sort among the live keys
+		agedL, agedC = min(c.Aged, len(recov)), min(c.Aged, len(conds))
+		a.Recov.Push(recov[:agedL]...)
+		a.Getter.Set(conds[:agedC])
+		time.Sleep(1500 * time.Millisecond) // the recovery proposal flow has ticked; the sampling flow ticks at 3 s
+		synctest.Wait()
+		time.Sleep(5 * time.Second)
+		synctest.Wait()
+		a.Getter.Set(nil)
+		time.Sleep(24*time.Hour + time.Minute)
+		synctest.Wait()
+	}
+	for _, f := range pushes {
+		f()
+	}
+	a.Recov.Push(recov[agedL:]...)
+	a.Getter.Set(conds[agedC:])
 	var hist common.BlockHistory
 	for i := 0; i < c.HistLen; i++ {
 		hist = append(hist, common.BlockKey{Number: common.BlockNumber(5000 - i), Hash: Hash32("h", 5000-i)})
@@ -201,13 +222,13 @@ func runC08(t *testing.T, c *C08Case) {
 	// which conditional upkeeps were sampled (= proposed)
 	recA.mu.Lock()
 	var condView, logView []common.UpkeepPayload
-	for _, p := range conds {
+	for _, p := range conds[agedC:] {
 		if _, ok := recA.checked[p.WorkID]; ok {
 			condView = append(condView, p)
 		}
 	}
 	recA.mu.Unlock()
-	logView = append(logView, recov...)
+	logView = append(logView, recov[agedL:]...)
 
 	// in flight: accepted reports for some staged results and some proposals
 	blocked := map[string]bool{}
@@ -322,6 +343,11 @@ func runC08(t *testing.T, c *C08Case) {
 		if c.TwinOK && oa.Performable[i].UniqueID() != ob.Performable[i].UniqueID() {
 			c.TwinOK = false
 		}
+	}
+	if c.Second && len(surfaced) > 0 {
+		// the final flows staged the surfaced proposals' results on node a only (the twin never had the proposals):
+		// the two nodes no longer hold the same candidates, so the twin clause says nothing about this case
+		c.TwinOK = true
 	}
 	c.HistOK = len(oa.BlockHistory) <= len(hist)
 	for i := range oa.BlockHistory {
@@ -456,6 +482,10 @@ func boundary() []C08Case {
 	add(C08Case{Family: "surfaced-before-any-view-then-proposed-again", Seq: 53, Digest: 1, Staged: 4, PDMode: 2, LogProps: 9, PrevSurf: 8, HistLen: 3, Second: true, Quick: true})
 	add(C08Case{Family: "surfaced-before-any-view-then-proposed-again", Seq: 54, Digest: 2, Staged: 0, LogProps: 12, PrevSurf: 14, HistLen: 0, Second: true, Quick: true})
 	add(C08Case{Family: "surfaced-before-any-view-then-proposed-again", Seq: 55, Digest: 3, Staged: 0, LogProps: 7, PrevSurf: 4, HistLen: 0, Second: true, Quick: true})
+	add(C08Case{Family: "expired-proposals-among-live", Seq: 56, Digest: 1, Staged: 3, LogProps: 9, CondUpk: 9, Aged: 3, HistLen: 3})
+	add(C08Case{Family: "expired-proposals-among-live", Seq: 57, Digest: 2, Staged: 0, LogProps: 12, CondUpk: 12, Aged: 6, HistLen: 3})
+	add(C08Case{Family: "expired-proposals-among-live", Seq: 58, Digest: 3, Staged: 40, PDMode: 2, LogProps: 5, CondUpk: 5, Aged: 2, PropsFly: 2, HistLen: 3})
+	add(C08Case{Family: "all-proposals-expired", Seq: 59, Digest: 1, Staged: 2, LogProps: 4, CondUpk: 4, Aged: 4, HistLen: 3})
 	add(C08Case{Family: "thousands-staged", Seq: 50, Digest: 2, Staged: 3000, PDMode: 0, InFlight: 50, HistLen: 256, LogProps: 5, CondUpk: 5})
 	return cs
 }
@@ -484,6 +514,9 @@ func random08(r *Rng) C08Case {
 	}
 	c.Rollback = r.Chance(1, 4)
 	c.AccLower = r.Chance(1, 3)
+	if !c.Quick && c.PrevSurf == 0 && r.Chance(1, 4) {
+		c.Aged = 1 + r.Intn(5)
+	}
 	if c.Staged > 0 && c.Staged <= 150 && c.PrevAgr == 0 && r.Chance(1, 5) {
 		c.Restage = 1 + r.Intn(c.Staged)
 	}
